@@ -313,7 +313,8 @@ class SpecGen:
             if rng.random() < k.p_dummy and not reached_optional and (not lines or rng.random() < 0.5):
                 t = rng.choice(["byte", "char", "short"])
                 v = rng.randrange(0, 253)
-                lines.append(f'{indent}<dummy type="{t}">{v}</dummy>')
+                dc = f"<comment>{escape(self.comment())}</comment>" if rng.random() < k.p_comment else ""
+                lines.append(f'{indent}<dummy type="{t}">{v}{dc}</dummy>')
                 note(False, 0, {"byte": 1, "char": 1, "short": 2}[t], True)
                 ended = True
                 continue
@@ -558,7 +559,10 @@ class SpecGen:
         for kv, default in cases:
             attr = 'default="true"' if default else f'value="{kv}"'
             if rng.random() < 0.2:
-                lines.append(f"{indent}    <case {attr}/>")
+                if rng.random() < k.p_comment:
+                    lines.append(f"{indent}    <case {attr}><comment>{escape(self.comment())}</comment></case>")
+                else:
+                    lines.append(f"{indent}    <case {attr}/>")
                 all_end = False
                 continue
             cwb = [max(0, wb[0] // 2)]
@@ -570,6 +574,8 @@ class SpecGen:
                 all_end = False
                 continue
             lines.append(f"{indent}    <case {attr}>")
+            if rng.random() < k.p_comment:
+                lines.append(f"{indent}        <comment>{escape(self.comment())}</comment>")
             lines.extend(body)
             lines.append(f"{indent}    </case>")
             info["array_depth"] = max(info["array_depth"], binfo["array_depth"])
